@@ -10,3 +10,5 @@ INVARIANT Inv_Transports
 INVARIANT Inv_Default
 INVARIANT Inv_Feature
 INVARIANT Inv_RootFromPackage
+INVARIANT Inv_MetadataOnce
+INVARIANT Inv_ClientNamesDistinct
